@@ -78,7 +78,11 @@ impl Scenario for ReportScenario {
         let mut rng = StdRng::seed_from_u64(pu64(p, "crypto_seed"));
         let registry = KeyRegistry::<KeyPair>::random(3, &mut rng);
         let other_registry = KeyRegistry::<KeyPair>::random(3, &mut rng);
-        let shape = format!("reports n{} sample-{}", recs.len(), ps(&recs[sample], "kind"));
+        // one run = one freshly encrypted sample record whose every bit flip / truncation is tried: distinct by the sample's
+        // plaintext attributes and the ciphertext (crypto seed)
+        let shape = format!("reports n{} sample-{} k{} d{} {:08x}", recs.len(), ps(&recs[sample], "kind"), pu(&recs[sample], "key_id"),
+            recs[sample].get("domain_len").and_then(Value::as_u64).unwrap_or(0),
+            fnv_bytes(fnv(0xcbf2_9ce4_8422_2325, pu64(p, "crypto_seed")), recs[sample].to_string().as_bytes()) as u32);
 
         // helper-1 shares of every record, encrypted as the report collector does
         let mut plain: Vec<HybridReport<BA8, BA3>> = Vec::new();
